@@ -63,7 +63,8 @@ def strategy(tier):
                                    "two": st.booleans()})
     spec = st.one_of(basic, basic, fancy)
     base = st.fixed_dictionaries({
-        "kind": st.sampled_from(["arr", "arr", "arr", "arr", "arr", "arr", "arr", "arr", "pyfloat", "pycomplex"]),
+        "kind": st.sampled_from(["arr", "arr", "arr", "arr", "arr", "arr", "arr", "arr", "pyfloat", "pycomplex",
+                                 "npfloat", "npcomplex"]),
         "shape": st.one_of(st.lists(st.integers(1, 4), min_size=1, max_size=3),
                            st.lists(st.integers(1, 4), min_size=0, max_size=3)), "cplx": st.booleans(),
         "init_sens": st.booleans(), "like0": st.booleans()})
@@ -114,9 +115,12 @@ def _values(rng, shape, cplx):
     return np.array(x)
 
 
-def _pyscalar(rng, cplx):
+def _pyscalar(rng, cplx, npy=False):
     re, im = float(rng.integers(-16, 17)) / 8.0, float(rng.integers(-16, 17)) / 8.0
-    return complex(re, im) if cplx else re
+    v = complex(re, im) if cplx else re
+    if npy:     # numpy scalar objects (what v @ w, np.sum(...) return): immutable like python scalars
+        v = np.complex128(v) if cplx else np.float64(v)
+    return v
 
 
 class _Base:
@@ -162,7 +166,8 @@ class _Run:
         if spec.get("like0") and i > 0:     # same kind/shape/dtype class as the first base (objects can be shared)
             spec = dict(self.case["bases"][0], init_sens=spec["init_sens"])
         b.kind = spec["kind"]
-        b.cplx = bool(spec["cplx"]) if b.kind == "arr" else b.kind == "pycomplex"
+        b.cplx = bool(spec["cplx"]) if b.kind == "arr" else b.kind in ("pycomplex", "npcomplex")
+        b.npy = b.kind in ("npfloat", "npcomplex")
         b.keep = bool(spec["init_sens"])
         if b.kind == "arr":
             b.shape = tuple(spec["shape"])
@@ -171,9 +176,9 @@ class _Run:
             self.labels.add(f"base:arr{len(b.shape)}d")
         else:
             b.shape = ()
-            state = _pyscalar(rng, b.cplx)
-            sens = _pyscalar(rng, b.cplx) if b.keep else None
-            self.labels.add("base:pyscalar")
+            state = _pyscalar(rng, b.cplx, b.npy)
+            sens = _pyscalar(rng, b.cplx, b.npy) if b.keep else None
+            self.labels.add("base:npscalar" if b.npy else "base:pyscalar")
         self.labels.add("complex" if b.cplx else "real")
         if b.keep:
             self.labels.add("keep_alloc")
@@ -328,7 +333,7 @@ class _Run:
         b, sig, rng, mode = h["base"], h["sig"], self.rng(op), op["mode"]
         self.opname = self.tname("set_state", h)
         if b.kind != "arr":
-            v = _pyscalar(rng, b.cplx)
+            v = _pyscalar(rng, b.cplx, b.npy)
             if self.pm("signal.state = scalar", lambda: setattr(sig, "state", v)) is _FAIL:
                 return True
             b.mstate = v
@@ -400,7 +405,7 @@ class _Run:
             if mode == "none":
                 v = None
             elif b.kind != "arr":
-                v = _pyscalar(rng, b.cplx)
+                v = _pyscalar(rng, b.cplx, b.npy)
             else:
                 v = _values(rng, shp, b.cplx)
             if self.pm("base.sensitivity = value", lambda: setattr(sig, "sensitivity", v)) is _FAIL:
@@ -457,7 +462,7 @@ class _Run:
         self.opname = self.tname("add", h)
         shp = self.hshape(h)
         if b.kind != "arr":
-            v = _pyscalar(rng, b.cplx)
+            v = _pyscalar(rng, b.cplx, b.npy)
             donor = None
             r = self.pm("scalar_signal.add_sensitivity(python scalar)", lambda: sig.add_sensitivity(v))
             if r is _FAIL:
